@@ -540,7 +540,7 @@ func c04Slots() []c04Slot {
 			func(r *c04Rule, vs []nv) { r.domains = vs }},
 		{"client", []nv{{"127.0.0.1", false}, {"192.168.0.0/24", true}, {"fe80::/10", false}, {"Frank's laptop", false}, {"a,b", false}, {"Mom", false}, {"Dad", true}, {"x|y", true}, {"192.168.0.0/16", false}, {"10.0.0.1", false}, {"Mom", true}, {"fd00::/8", false}, {"::ffff:192.168.0.7", false}, {"::ffff:10.0.0.0/104", true}, {" tv", false}, {"tv", true}, {"Fr\u00e9d\u00e9ric", false}, {"kids/tablet", false}, {"~guest", false}, {"10.0.0.0/40", true}},
 			func(r *c04Rule, vs []nv) { r.clients = vs }},
-		{"ctag", []nv{{"pc", false}, {"phone", true}, {"printer", false}, {"tv", true}, {"pc", true}, {"phone", false}},
+		{"ctag", []nv{{"pc", false}, {"phone", true}, {"printer", false}, {"tv", true}, {"pc", true}, {"phone", false}, {"printer", true}, {"tv", false}},
 			func(r *c04Rule, vs []nv) { r.ctags = vs }},
 		{"dnstype", []nv{{"A", false}, {"AAAA", true}, {"cname", false}, {"TXT", true}, {"HTTPS", false}, {"CAA", true}, {"A", true}},
 			func(r *c04Rule, vs []nv) { r.dnstypes = vs }},
